@@ -62,7 +62,7 @@ var (
 	reDepth    = regexp.MustCompile(`The depth of the complete state graph search is (\d+)`)
 	reInv      = regexp.MustCompile(`Invariant (\S+) is violated`)
 	reActProp  = regexp.MustCompile(`Action property (\S+) is violated`)
-	reTempProp = regexp.MustCompile(`Temporal properties were violated`)
+	reTempProp = regexp.MustCompile(`Temporal propert(ies were|y \w+ was) violated`)
 	reCov      = regexp.MustCompile(`^<(\w+) line \d+, col \d+ to line \d+, col \d+ of module \w+>: (\d+):(\d+)`)
 	reState    = regexp.MustCompile(`^State (\d+): `)
 )
